@@ -127,6 +127,14 @@ def check_case(case) -> Result:
             if np.any(bad):
                 k = int(np.flatnonzero(bad)[0])
                 res.bad("C16/is-the-pressure-derivative-of-storage", f"on the node p={ps[k]!r}: library c={c_lib[k]!r} outside the one-sided derivatives of the documented storage [{lo_s[k]!r}, {hi_s[k]!r}]")
+    # the water saturation may be given as a scalar or per cell (signature: float | ndarray); pressure / saturation
+    # per cell or one at a time: same numbers
+    c_sw_arr = np.asarray(lib("compressibility_combined_func(Sw array)", compressibility_combined_func, ps, so, phi, np.full(len(ps), sw), pvt), float)
+    if c_sw_arr.shape != c_lib.shape or not np.allclose(c_sw_arr, c_lib, rtol=1e-13, atol=0):
+        res.bad("C16/same-result-for-scalar-and-array-arguments", f"Sw given as an array of the same value changes c: {c_sw_arr[:3]} vs {c_lib[:3]}")
+    c_one = np.array([float(compressibility_combined_func(float(q), float(s_), phi, sw, pvt)) for q, s_ in zip(ps[:4], so[:4])])
+    if not np.allclose(c_one, c_lib[:4], rtol=1e-13, atol=0):
+        res.bad("C16/same-result-for-scalar-and-array-arguments", f"cell-by-cell scalar calls give {c_one} but the array call {c_lib[:4]}")
     # proportional to porosity (dyadic factor: exact)
     f = 2.0 ** case["phi_factor_exp"]
     c2 = np.asarray(lib("compressibility_combined_func(phi scaled)", compressibility_combined_func, ps, so, phi * f, sw, pvt), float)
